@@ -27,6 +27,9 @@ var (
 	ErrInvalid      = errors.New("invalid")
 )
 
+// ErrEmptyCommand is returned for a request array without elements.
+var ErrEmptyCommand = errors.New("empty command")
+
 // ErrOverflow is returned when an increment or decrement would overflow.
 var ErrOverflow = errors.New("increment or decrement would overflow")
 
